@@ -101,6 +101,18 @@ def _top_level_index(fn, node):
     return None, False
 
 
+def _fresh_local(fn, v, upto):
+    """v is a local name whose only binding, in an earlier top-level statement, is a fresh container (the function
+    fills the new container through the local name and publishes it)"""
+    if not isinstance(v, ast.Name):
+        return False
+    binds = [s for s in walk_no_nested(fn) if isinstance(s, ast.Assign)
+             and any(isinstance(t, ast.Name) and t.id == v.id for t in s.targets)]
+    if len(binds) != 1 or not _fresh(binds[0].value):
+        return False
+    return any(s is binds[0] for s in fn.body[:upto])
+
+
 def rule_module_state(ctx, prefix, fi):
     m = fi.module
     modglobals = {g for g, nodes in m.globals_assigned.items()}
@@ -123,7 +135,8 @@ def rule_module_state(ctx, prefix, fi):
             order.append((i if i is not None else 10 ** 6, is_top, n, kind))
         order.sort(key=lambda t: (t[0], getattr(t[2], "lineno", 0)))
         first = order[0]
-        reset = first[1] and first[3] == "rebind" and isinstance(first[2], ast.Assign) and _fresh(first[2].value)
+        reset = first[1] and first[3] == "rebind" and isinstance(first[2], ast.Assign) and \
+            (_fresh(first[2].value) or _fresh_local(fi.node, first[2].value, first[0]))
         if reset:
             ctx.ok(f"{prefix}.MODULE-STATE", fi.site, f"module-level `{g}` is rebound to a fresh container before "
                    f"this function writes it (no entry survives from an earlier call)", f"module-state:{g}")
